@@ -4,7 +4,7 @@ CONSTANTS
   Hi = 127
   Starts <- S8q
   Ends <- S8q
-  Steps <- S8q
+  Steps <- S8qs
   Wraps = FALSE
   PrintRows = TRUE
 INVARIANTS TypeOK NeedsNoValueOutsideT YieldsTheSequence StopsAtTheEnd DenotationConsistent RejectedOnlyWhenSpecified Emit
